@@ -738,6 +738,12 @@ async def _run_ops(ses: Session, h, job, label, cmd, ops, env, reads):
                 text = out_content(cmd, p, [] if len(op) > 1 and op[1] == "const" else reads)
                 world.write(p, text)
                 ses.emit("write", job=job, step=label, path=p, content=text, clock=_logical_ns())
+        elif kind == "read_mode":
+            # the command looks at the permission bits of a file (is it executable?)
+            ap = world.abspath(op[1])
+            mode = (os.stat(ap).st_mode & 0o111) if ap.is_file() else -1
+            reads.append(f"{op[1]}:x={int(mode > 0)}")
+            ses.emit("read_mode", job=job, step=label, path=op[1], x=int(mode > 0), clock=_logical_ns())
         elif kind == "getenv":
             val = env.get(op[1])
             reads.append(f"${op[1]}={val!r}")
